@@ -104,24 +104,24 @@ func (e *env) expr(x ast.Expr) (val, error) {
 		}
 		return val{}, e.errf(n, "unknown identifier")
 	case *ast.CallExpr:
-		src := e.p.Src(n)
+		src := norm(e.p.Src(n))
 		if v, ok := e.calls[src]; ok {
 			return v, nil
 		}
-		fun := e.p.Src(n.Fun)
+		fun := norm(e.p.Src(n.Fun))
 		if len(n.Args) != 1 {
 			return val{}, e.errf(n, "unsupported call")
 		}
 		switch {
 		case isIPToInt(fun):
-			key := e.p.Src(n.Args[0])
+			key := norm(e.p.Src(n.Args[0]))
 			if name, ok := e.ips[key]; ok {
 				return val{name, tU32}, nil
 			}
 			if v, ok := e.vars[key]; ok && v.t == tU32 {
 				return v, nil
 			}
-			return val{}, e.errf(n, "IPToInt of an operand this translator does not know")
+			return val{}, e.errf(n, "IPToInt of an operand this translator does not know (key %q, known %v)", key, e.ips)
 		case isIntToIP(fun):
 			a, err := e.expr(n.Args[0])
 			if err != nil {
@@ -274,6 +274,69 @@ func (o *out) def(doc, sig, body string) {
 	fmt.Fprintf(&o.b, "/-- %s -/\ndef %s :=\n  %s\n\n", doc, sig, body)
 }
 
+// ---------------------------------------------------------------- normalised functions
+
+// nfunc is a function of the source after normalisation (normalise.go): locals inlined, guard clauses / else
+// branches / switch in one canonical shape, range loops with an element variable.  The arithmetic inside is
+// exactly as written; operands are found by ROLE (receiver, parameters, loop variables), not by name.
+type nfunc struct {
+	p  *fg.Parsed
+	fd *ast.FuncDecl
+	n  *normer
+}
+
+func load(p *fg.Parsed, recv, name string) (*nfunc, error) {
+	fd, err := p.Fn(recv, name)
+	if err != nil {
+		return nil, err
+	}
+	return &nfunc{p, fd, Normalise(p.Fset, fd)}, nil
+}
+
+func (f *nfunc) recv() string {
+	if f.fd.Recv != nil && len(f.fd.Recv.List) == 1 && len(f.fd.Recv.List[0].Names) == 1 {
+		return f.fd.Recv.List[0].Names[0].Name
+	}
+	return "?receiver"
+}
+
+func (f *nfunc) params() []string {
+	var out []string
+	for _, fl := range f.fd.Type.Params.List {
+		for _, n := range fl.Names {
+			out = append(out, n.Name)
+		}
+	}
+	return out
+}
+
+func (f *nfunc) param(i int) string {
+	if ps := f.params(); i < len(ps) {
+		return ps[i]
+	}
+	return fmt.Sprintf("?param%d", i)
+}
+
+func (f *nfunc) body() []ast.Stmt { return f.fd.Body.List }
+
+// pinShape compares the canonical text of f (destroys f: call it last) with the canonical text of wantSrc's function.
+func (o *out) pinShape(name, what string, f *nfunc, recv, fn string) error {
+	want, err := CanonSource(wantSrc, recv, fn)
+	if err != nil {
+		return fmt.Errorf("wantSrc: %v", err)
+	}
+	have := f.n.Canon()
+	o.pin(name, what, have == want, have, want)
+	return nil
+}
+
+func identName(e ast.Expr) string {
+	if id, ok := e.(*ast.Ident); ok {
+		return id.Name
+	}
+	return ""
+}
+
 // ---------------------------------------------------------------- nets/ip.go
 
 func genIPGo(repo string, o *out) error {
@@ -293,22 +356,16 @@ func genIPGo(repo string, o *out) error {
 		"ipRangeSepChar : Char", fmt.Sprintf("Char.ofNat %d", sep[0]))
 
 	// --- IPRange.Size
-	fd, err := p.Fn("IPRange", "Size")
+	f, err := load(p, "IPRange", "Size")
 	if err != nil {
 		return err
 	}
-	e := &env{p: p, fn: "IPRange.Size", ips: map[string]string{"ipr.First": "first", "ipr.Last": "last"}}
-	if resultType(p, fd) != "uint32" || len(fd.Body.List) == 0 {
-		return e.errf(fd.Type, "expected `func (ipr IPRange) Size() uint32` ending with one return")
+	r := f.recv()
+	e := &env{p: p, fn: "IPRange.Size", ips: map[string]string{r + ".First": "first", r + ".Last": "last"}, vars: map[string]val{}}
+	if resultType(p, f.fd) != "uint32" || len(f.body()) == 0 {
+		return e.errf(f.fd.Type, "expected `func (ipr IPRange) Size() uint32` ending with one return")
 	}
-	var guards []string
-	for _, st := range fd.Body.List[:len(fd.Body.List)-1] {
-		guards = append(guards, norm(p.Src(st)))
-	}
-	const wantGuard = "if len(ipr.First) == 0 || len(ipr.Last) == 0 { return 0 }"
-	o.pin("rangeSizeGuard", "`IPRange.Size` returns 0 for a nil First / Last and otherwise its last statement",
-		strings.Join(guards, " ; ") == wantGuard, strings.Join(guards, " ; "), wantGuard)
-	rx, err := singleReturn(e, fd.Body.List[len(fd.Body.List)-1])
+	rx, err := singleReturn(e, f.body()[len(f.body())-1])
 	if err != nil {
 		return err
 	}
@@ -318,44 +375,69 @@ func genIPGo(repo string, o *out) error {
 	}
 	o.def("`IPRange.Size` (uint32, wraps): `return "+p.Src(rx)+"` (for non-nil First/Last)",
 		"rangeSize (first last : BitVec 32) : BitVec 32", s)
+	if err := o.pinShape("rangeSizeGuard", "`IPRange.Size` returns 0 for a nil First / Last and otherwise the arithmetic above",
+		f, "IPRange", "Size"); err != nil {
+		return err
+	}
 
 	// --- IPRange.Contains
-	fd, err = p.Fn("IPRange", "Contains")
+	f, err = load(p, "IPRange", "Contains")
 	if err != nil {
 		return err
 	}
-	e = &env{p: p, fn: "IPRange.Contains", ips: map[string]string{"ipr.First": "first", "ipr.Last": "last", "ip": "ip"},
+	r = f.recv()
+	e = &env{p: p, fn: "IPRange.Contains", ips: map[string]string{r + ".First": "first", r + ".Last": "last", f.param(0): "ip"},
 		vars: map[string]val{}}
-	if resultType(p, fd) != "bool" {
-		return e.errf(fd.Type, "expected result type bool")
+	if resultType(p, f.fd) != "bool" {
+		return e.errf(f.fd.Type, "expected result type bool")
 	}
-	body, err := straightLine(e, fd.Body.List, tBool)
+	body, err := straightLine(e, f.body(), tBool)
 	if err != nil {
 		return err
 	}
-	o.def("`IPRange.Contains`: "+norm(p.Src(fd.Body)), "rangeContains (first last ip : BitVec 32) : Bool", body)
+	o.def("`IPRange.Contains`: "+norm(p.Src(f.fd.Body)), "rangeContains (first last ip : BitVec 32) : Bool", body)
 
-	// --- SparseSubnet.Size
-	fd, err = p.Fn("SparseSubnet", "Size")
+	// --- SparseSubnet.Size: accumulator, one loop over the ranges adding each range's Size(), return
+	f, err = load(p, "SparseSubnet", "Size")
 	if err != nil {
 		return err
 	}
-	e = &env{p: p, fn: "SparseSubnet.Size", vars: map[string]val{"size": {"size", tU32}},
-		calls: map[string]val{"ipr.Size()": {"rsize", tU32}}}
-	if resultType(p, fd) != "uint32" || len(fd.Body.List) != 3 {
-		return e.errf(fd.Type, "expected `var size uint32; for … { size += ipr.Size() }; return size`")
+	r = f.recv()
+	e = &env{p: p, fn: "SparseSubnet.Size", vars: map[string]val{}, calls: map[string]val{}}
+	bad := func(n ast.Node) error {
+		return e.errf(n, "expected `var size uint32; for _, ipr := range subnet.IPRanges { size += ipr.Size() }; return size`")
 	}
-	if norm(p.Src(fd.Body.List[0])) != "var size uint32" {
-		return e.errf(fd.Body.List[0], "expected `var size uint32`")
+	if resultType(p, f.fd) != "uint32" || len(f.body()) != 3 {
+		return bad(f.fd.Body)
 	}
-	rs, ok := fd.Body.List[1].(*ast.RangeStmt)
-	if !ok || norm(p.Src(rs.X)) != "subnet.IPRanges" || rs.Key == nil || p.Src(rs.Key) != "_" || rs.Value == nil ||
-		p.Src(rs.Value) != "ipr" || len(rs.Body.List) != 1 {
-		return e.errf(fd.Body.List[1], "expected `for _, ipr := range subnet.IPRanges { <one statement> }`")
+	acc := ""
+	switch t := f.body()[0].(type) {
+	case *ast.DeclStmt:
+		if gd, ok := t.Decl.(*ast.GenDecl); ok && gd.Tok == token.VAR && len(gd.Specs) == 1 {
+			vs := gd.Specs[0].(*ast.ValueSpec)
+			if len(vs.Names) == 1 && vs.Type != nil && p.Src(vs.Type) == "uint32" &&
+				(len(vs.Values) == 0 || (len(vs.Values) == 1 && p.Src(vs.Values[0]) == "0")) {
+				acc = vs.Names[0].Name
+			}
+		}
+	case *ast.AssignStmt:
+		if t.Tok == token.DEFINE && len(t.Lhs) == 1 && len(t.Rhs) == 1 && p.Src(t.Rhs[0]) == "uint32(0)" {
+			acc = identName(t.Lhs[0])
+		}
 	}
+	if acc == "" {
+		return bad(f.body()[0])
+	}
+	rs, ok := f.body()[1].(*ast.RangeStmt)
+	if !ok || norm(p.Src(rs.X)) != r+".IPRanges" || !isBlank(rs.Key) || identName(rs.Value) == "" || isBlank(rs.Value) ||
+		len(rs.Body.List) != 1 {
+		return bad(f.body()[1])
+	}
+	e.vars[acc] = val{"size", tU32}
+	e.calls[identName(rs.Value)+".Size()"] = val{"rsize", tU32}
 	as, ok := rs.Body.List[0].(*ast.AssignStmt)
-	if !ok || len(as.Lhs) != 1 || len(as.Rhs) != 1 || p.Src(as.Lhs[0]) != "size" {
-		return e.errf(rs.Body.List[0], "expected `size += ipr.Size()`")
+	if !ok || len(as.Lhs) != 1 || len(as.Rhs) != 1 || p.Src(as.Lhs[0]) != acc {
+		return bad(rs.Body.List[0])
 	}
 	var step ast.Expr
 	switch as.Tok {
@@ -372,78 +454,82 @@ func genIPGo(repo string, o *out) error {
 	if err != nil {
 		return err
 	}
-	if norm(p.Src(fd.Body.List[2])) != "return size" {
-		return e.errf(fd.Body.List[2], "expected `return size`")
+	if norm(p.Src(f.body()[2])) != "return "+acc {
+		return bad(f.body()[2])
 	}
 	o.def("`SparseSubnet.Size`: zero value of `var size uint32`", "sparseSizeInit : BitVec 32", "0#32")
-	o.def("`SparseSubnet.Size`: loop body `"+norm(p.Src(as))+"` (uint32, wraps); `rsize` = `ipr.Size()`",
+	o.def("`SparseSubnet.Size`: loop body `"+norm(p.Src(as))+"` (uint32, wraps); `rsize` = the range's `Size()`",
 		"sparseSizeStep (size rsize : BitVec 32) : BitVec 32", s)
 
-	// --- ParseIPRange: the order check, everything else pinned textually
-	fd, err = p.Fn("", "ParseIPRange")
+	// --- ParseIPRange: the order check is arithmetic, the rest is a shape pin
+	f, err = load(p, "", "ParseIPRange")
 	if err != nil {
 		return err
 	}
-	e = &env{p: p, fn: "ParseIPRange", ips: map[string]string{"first": "first", "last": "last"}}
+	e = &env{p: p, fn: "ParseIPRange", ips: map[string]string{}, vars: map[string]val{}}
+	// the two addresses: locals assigned from net.ParseIP(<parts>[0]) and net.ParseIP(<parts>[1])
+	ast.Inspect(f.fd.Body, func(x ast.Node) bool {
+		as, ok := x.(*ast.AssignStmt)
+		if !ok || len(as.Lhs) != 1 || len(as.Rhs) != 1 {
+			return true
+		}
+		c, ok := as.Rhs[0].(*ast.CallExpr)
+		if !ok || p.Src(c.Fun) != "net.ParseIP" || len(c.Args) != 1 {
+			return true
+		}
+		if ix, ok := c.Args[0].(*ast.IndexExpr); ok {
+			switch p.Src(ix.Index) {
+			case "0":
+				e.ips[identName(as.Lhs[0])] = "first"
+			case "1":
+				e.ips[identName(as.Lhs[0])] = "last"
+			}
+		}
+		return true
+	})
 	var orderIf *ast.IfStmt
 	nOrder := 0
-	ast.Inspect(fd.Body, func(n ast.Node) bool {
-		if is, ok := n.(*ast.IfStmt); ok && strings.Contains(p.Src(is.Cond), "IPToInt") {
+	ast.Inspect(f.fd.Body, func(n ast.Node) bool {
+		if is, ok := n.(*ast.IfStmt); ok && isArith(is.Cond) {
 			nOrder++
 			orderIf = is
 		}
 		return true
 	})
-	shape := norm(p.Src(fd.Body))
 	switch {
 	case nOrder == 0:
 		// no comparison of the two ends at all: ParseIPRange never rejects on the order
 		o.def("`ParseIPRange`: the source has NO order check of `first` and `last` (nothing is rejected on the order)",
 			"parseRangeReject (first last : BitVec 32) : Bool", "false")
-	case nOrder == 1 && norm(p.Src(orderIf.Body)) == "{ return nil }" && orderIf.Else == nil && orderIf.Init == nil:
+	case nOrder == 1 && norm(p.Src(orderIf.Body)) == "{ return nil }" && orderIf.Else == nil:
 		s, err = e.typed(orderIf.Cond, tBool)
 		if err != nil {
 			return err
 		}
 		o.def("`ParseIPRange`: `if "+p.Src(orderIf.Cond)+" { return nil }`",
 			"parseRangeReject (first last : BitVec 32) : Bool", s)
-		shape = strings.Replace(shape, norm(p.Src(orderIf)), "<ORDER-CHECK>", 1)
 	default:
-		return e.errf(fd.Body, "expected at most one `if <comparison of IPToInt(first), IPToInt(last)> { return nil }`")
+		return e.errf(f.fd.Body, "expected at most one `if <comparison of IPToInt(first), IPToInt(last)> { return nil }`")
 	}
-	const wantShape = `{ if strings.Contains(ipr, IPRangeSeparator) { strs := strings.SplitN(ipr, IPRangeSeparator, 2) ` +
-		`first := net.ParseIP(strs[0]) if first == nil { return nil } last := net.ParseIP(strs[1]) if last == nil { return nil } ` +
-		`<ORDER-CHECK> return &IPRange{first, last} } else { ip := net.ParseIP(ipr) if len(ip) == 0 { return nil } ` +
-		`return &IPRange{ip, ip} } }`
-	o.pin("parseIPRangeShape", "`ParseIPRange`: split on the first separator, net.ParseIP both halves, order check, else a single address",
-		shape == wantShape, shape, wantShape)
+	if err := o.pinShape("parseIPRangeShape", "`ParseIPRange`: split on the first separator, net.ParseIP both halves, order check, else a single address",
+		f, "", "ParseIPRange"); err != nil {
+		return err
+	}
 
-	// --- IPRange.String pinned textually (single address printed without separator)
-	fd, err = p.Fn("IPRange", "String")
-	if err != nil {
-		return err
+	// --- IPRange.String, IPToInt, IntToIP: shape pins
+	for _, sp := range []struct{ pin, what, recv, fn string }{
+		{"rangeStringShape", "`IPRange.String`: a single address alone, otherwise first + separator + last", "IPRange", "String"},
+		{"ipToIntShape", "`IPToInt` is the big-endian uint32 of the last four bytes", "", "IPToInt"},
+		{"intToIPShape", "`IntToIP` writes the four bytes big-endian", "", "IntToIP"},
+	} {
+		f, err = load(p, sp.recv, sp.fn)
+		if err != nil {
+			return err
+		}
+		if err := o.pinShape(sp.pin, sp.what, f, sp.recv, sp.fn); err != nil {
+			return err
+		}
 	}
-	const wantString = `{ if ipr.First.Equal(ipr.Last) { return ipr.First.String() } ` +
-		`return fmt.Sprintf("%s%s%s", ipr.First.String(), IPRangeSeparator, ipr.Last.String()) }`
-	o.pin("rangeStringShape", "`IPRange.String`: a single address alone, otherwise first + separator + last",
-		norm(p.Src(fd.Body)) == wantString, norm(p.Src(fd.Body)), wantString)
-
-	// --- IPToInt / IntToIP: big-endian low 32 bits; pinned textually, slice bounds extracted
-	fd, err = p.Fn("", "IPToInt")
-	if err != nil {
-		return err
-	}
-	const wantIPToInt = `{ if len(ip) == net.IPv6len { return binary.BigEndian.Uint32(ip[12:16]) } else if len(ip) == net.IPv4len ` +
-		`{ return binary.BigEndian.Uint32(ip) } return 0 }`
-	o.pin("ipToIntShape", "`IPToInt` is the big-endian uint32 of the last four bytes",
-		norm(p.Src(fd.Body)) == wantIPToInt, norm(p.Src(fd.Body)), wantIPToInt)
-	fd, err = p.Fn("", "IntToIP")
-	if err != nil {
-		return err
-	}
-	const wantIntToIP = `{ ip := make(net.IP, net.IPv4len) binary.BigEndian.PutUint32(ip, i) return ip }`
-	o.pin("intToIPShape", "`IntToIP` writes the four bytes big-endian",
-		norm(p.Src(fd.Body)) == wantIntToIP, norm(p.Src(fd.Body)), wantIntToIP)
 	return nil
 }
 
@@ -485,106 +571,95 @@ func genFloatingIP(repo string, o *out) error {
 		return err
 	}
 	// --- Minus
-	fd, err := p.Fn("", "Minus")
+	f, err := load(p, "", "Minus")
 	if err != nil {
 		return err
 	}
-	e := &env{p: p, fn: "Minus", ips: map[string]string{"a": "a", "b": "b"}}
-	if resultType(p, fd) != "int64" || len(fd.Body.List) != 1 {
-		return e.errf(fd.Type, "expected `func Minus(a, b net.IP) int64 { return … }`")
+	e := &env{p: p, fn: "Minus", ips: map[string]string{f.param(0): "a", f.param(1): "b"}, vars: map[string]val{}}
+	if resultType(p, f.fd) != "int64" {
+		return e.errf(f.fd.Type, "expected `func Minus(a, b net.IP) int64`")
 	}
-	rx, err := singleReturn(e, fd.Body.List[0])
+	s, err := straightLine(e, f.body(), tI64)
 	if err != nil {
 		return err
 	}
-	s, err := e.typed(rx, tI64)
-	if err != nil {
-		return err
-	}
-	o.def("`floatingip.Minus` (int64 kept in two's complement, read with `.toInt`): `return "+p.Src(rx)+"`",
+	o.def("`floatingip.Minus` (int64 kept in two's complement, read with `.toInt`): "+norm(p.Src(f.fd.Body)),
 		"minus (a b : BitVec 32) : BitVec 64", s)
 
 	// --- FloatingIPSlice.Less
-	fd, err = p.Fn("FloatingIPSlice", "Less")
+	f, err = load(p, "FloatingIPSlice", "Less")
 	if err != nil {
 		return err
 	}
-	e = &env{p: p, fn: "FloatingIPSlice.Less", ips: map[string]string{"s[i].Gateway": "gi", "s[j].Gateway": "gj"}}
-	if resultType(p, fd) != "bool" || len(fd.Body.List) != 1 {
-		return e.errf(fd.Type, "expected a single return")
+	r := f.recv()
+	e = &env{p: p, fn: "FloatingIPSlice.Less", vars: map[string]val{},
+		ips: map[string]string{r + "[" + f.param(0) + "].Gateway": "gi", r + "[" + f.param(1) + "].Gateway": "gj"}}
+	if resultType(p, f.fd) != "bool" {
+		return e.errf(f.fd.Type, "expected result type bool")
 	}
-	rx, err = singleReturn(e, fd.Body.List[0])
+	s, err = straightLine(e, f.body(), tBool)
 	if err != nil {
 		return err
 	}
-	s, err = e.typed(rx, tBool)
-	if err != nil {
-		return err
-	}
-	o.def("`FloatingIPSlice.Less` (the order `ConfigurePool` sorts the pools in): `return "+p.Src(rx)+"`",
+	o.def("`FloatingIPSlice.Less` (the order `ConfigurePool` sorts the pools in): "+norm(p.Src(f.fd.Body)),
 		"poolLess (gi gj : BitVec 32) : Bool", s)
 
-	// --- fipCheck
-	fd, err = p.Fn("", "fipCheck")
+	// --- fipCheck: the adjacency comparison is arithmetic, the rest is a shape pin
+	f, err = load(p, "", "fipCheck")
 	if err != nil {
 		return err
 	}
-	e = &env{p: p, fn: "fipCheck", ips: map[string]string{"fip.IPRanges[i].First": "first", "fip.IPRanges[i-1].Last": "prevLast"}}
-	var adj *ast.IfStmt
-	var conds []string
-	ast.Inspect(fd.Body, func(n ast.Node) bool {
-		if is, ok := n.(*ast.IfStmt); ok {
-			c := norm(p.Src(is.Cond))
-			if strings.Contains(c, "IPToInt") {
-				if adj == nil {
-					adj = is
-				} else {
-					conds = append(conds, "<second IPToInt comparison>")
-				}
-				conds = append(conds, "<ADJ>")
-			} else {
-				conds = append(conds, c)
-			}
+	pool := f.param(0)
+	e = &env{p: p, fn: "fipCheck", ips: map[string]string{}, vars: map[string]val{}}
+	var adj ast.Expr
+	nAdj := 0
+	ast.Inspect(f.fd.Body, func(x ast.Node) bool {
+		rs, ok := x.(*ast.RangeStmt)
+		if !ok || norm(p.Src(rs.X)) != pool+".IPRanges" {
+			return true
 		}
+		// current range = the element variable (or an explicit index), previous range = index key-1
+		if v := identName(rs.Value); v != "" && v != "_" {
+			e.ips[v+".First"] = "first"
+		}
+		if k := identName(rs.Key); k != "" && k != "_" {
+			e.ips[pool+".IPRanges["+k+"].First"] = "first"
+			e.ips[pool+".IPRanges["+k+"-1].Last"] = "prevLast"
+			e.ips[pool+".IPRanges["+k+" - 1].Last"] = "prevLast"
+		}
+		ast.Inspect(rs.Body, func(y ast.Node) bool {
+			if is, ok := y.(*ast.IfStmt); ok && isArith(is.Cond) {
+				var ops []ast.Expr
+				flatten(is.Cond, token.LAND, &ops)
+				for _, c := range ops {
+					if isArith(c) {
+						nAdj++
+						adj = c
+					}
+				}
+			}
+			return true
+		})
 		return true
 	})
-	wantConds := []string{
-		"fip.Gateway.To4() == nil || len(fip.Mask) != net.IPv4len",
-		"fip.IPRanges[i].First.To4() == nil || fip.IPRanges[i].Last.To4() == nil",
-		"!net.Contains(fip.IPRanges[i].First) || !net.Contains(fip.IPRanges[i].Last)",
-		"i != 0",
-		"<ADJ>",
-	}
-	o.pin("fipCheckGuards", "`fipCheck` checks: ipv4 only, both ends of every range inside the gateway's subnet, adjacency for i != 0",
-		reflect.DeepEqual(conds, wantConds), strings.Join(conds, " ; "), strings.Join(wantConds, " ; "))
-	skel := norm(p.Src(fd.Body))
-	if adj != nil {
-		skel = strings.Replace(skel, norm(p.Src(adj.Cond)), "<ADJ>", 1)
-	}
-	skelOK := true
-	musts := []string{
-		"net := net.IPNet{IP: fip.Gateway, Mask: fip.Mask}",
-		"for i := range fip.IPRanges {",
-		"if i != 0 { if <ADJ> { return fmt.Errorf(",
-		"} return nil }",
-	}
-	for _, must := range musts {
-		if !strings.Contains(skel, must) {
-			skelOK = false
-		}
-	}
-	o.pin("fipCheckSkeleton", "`fipCheck`: the subnet is {Gateway, Mask}; one loop over the ranges; the adjacency test returns an error",
-		skelOK, skel, "contains each of: "+strings.Join(musts, " | "))
-	if adj == nil {
+	switch nAdj {
+	case 0:
 		o.def("`fipCheck`: the source has NO adjacency comparison (no range is rejected for order / mergeability)",
 			"fipAdjReject (first prevLast : BitVec 32) : Bool", "false")
-	} else {
-		s, err = e.typed(adj.Cond, tBool)
+	case 1:
+		s, err = e.typed(adj, tBool)
 		if err != nil {
 			return err
 		}
-		o.def("`fipCheck`: a range is rejected (mergeable with / not after the previous one) iff `"+norm(p.Src(adj.Cond))+"`",
+		o.def("`fipCheck`: a range is rejected (mergeable with / not after the previous one) iff `"+norm(p.Src(adj))+"`",
 			"fipAdjReject (first prevLast : BitVec 32) : Bool", s)
+	default:
+		return e.errf(f.fd.Body, "expected one comparison of IPToInt values in the loop over the ranges")
+	}
+	if err := o.pinShape("fipCheckShape", "`fipCheck`: ipv4 only; the subnet is {Gateway, Mask}; BOTH ends of every range inside it; "+
+		"adjacency test against the previous range for every range but the first; each failure returns an error",
+		f, "", "fipCheck"); err != nil {
+		return err
 	}
 
 	// --- FloatingIPPoolConf: json field table
@@ -601,16 +676,16 @@ func genFloatingIP(repo string, o *out) error {
 			if !ok || ts.Name.Name != "FloatingIPPoolConf" {
 				continue
 			}
-			for _, f := range st.Fields.List {
+			for _, fl := range st.Fields.List {
 				tag := ""
-				if f.Tag != nil {
-					t, _ := strconv.Unquote(f.Tag.Value)
+				if fl.Tag != nil {
+					t, _ := strconv.Unquote(fl.Tag.Value)
 					tag = reflect.StructTag(t).Get("json")
 				}
-				for _, n := range f.Names {
-					fields = append(fields, fmt.Sprintf("(%s, %s, %s)", fg.LeanStr(n.Name), fg.LeanStr(p.Src(f.Type)), fg.LeanStr(tag)))
+				for _, n := range fl.Names {
+					fields = append(fields, fmt.Sprintf("(%s, %s, %s)", fg.LeanStr(n.Name), fg.LeanStr(p.Src(fl.Type)), fg.LeanStr(tag)))
 					if n.Name == "Vlan" {
-						switch p.Src(f.Type) {
+						switch p.Src(fl.Type) {
 						case "uint8":
 							vlanBits = 8
 						case "uint16":
@@ -631,42 +706,21 @@ func genFloatingIP(repo string, o *out) error {
 	o.def("width of `FloatingIPPoolConf.Vlan` (encoding/json rejects numbers which overflow it)", "vlanBits : Nat",
 		strconv.Itoa(vlanBits))
 
-	// --- UnmarshalJSON: the guard conditions in source order
-	fd, err = p.Fn("FloatingIPPool", "UnmarshalJSON")
-	if err != nil {
-		return err
-	}
-	conds = nil
-	ast.Inspect(fd.Body, func(n ast.Node) bool {
-		if is, ok := n.(*ast.IfStmt); ok {
-			c := norm(p.Src(is.Cond))
-			if is.Init != nil {
-				c = norm(p.Src(is.Init)) + "; " + c
-			}
-			conds = append(conds, fg.LeanStr(c))
+	// --- UnmarshalJSON / MarshalJSON: shape pins (guards, their order, what is assigned from what)
+	for _, sp := range []struct{ pin, what, fn string }{
+		{"unmarshalJSONShape", "`FloatingIPPool.UnmarshalJSON`: json decode; node subnet mandatory; routableSubnet wins, else every " +
+			"node subnet non-null, masked, de-duplicated; gateway and subnet mandatory; every range through ParseIPRange; ends with fipCheck",
+			"UnmarshalJSON"},
+		{"marshalJSONShape", "`FloatingIPPool.MarshalJSON`: node subnets, subnet = IPNet(), gateway, vlan, one string per range", "MarshalJSON"},
+	} {
+		f, err = load(p, "FloatingIPPool", sp.fn)
+		if err != nil {
+			return err
 		}
-		return true
-	})
-	last := fd.Body.List[len(fd.Body.List)-1]
-	o.pin("unmarshalEndsWithFipCheck", "`FloatingIPPool.UnmarshalJSON` ends with `return fipCheck(fip)`",
-		norm(p.Src(last)) == "return fipCheck(fip)", norm(p.Src(last)), "return fipCheck(fip)")
-	o.def("`FloatingIPPool.UnmarshalJSON`: every `if` condition in source order (the function ends with `return fipCheck(fip)`)",
-		"unmarshalGuards : List String", "[\n    "+strings.Join(conds, ",\n    ")+"]")
-
-	// --- MarshalJSON pinned: which fields are written from what
-	fd, err = p.Fn("FloatingIPPool", "MarshalJSON")
-	if err != nil {
-		return err
-	}
-	var assigns []string
-	ast.Inspect(fd.Body, func(n ast.Node) bool {
-		if as, ok := n.(*ast.AssignStmt); ok && len(as.Lhs) == 1 && strings.HasPrefix(p.Src(as.Lhs[0]), "conf.") {
-			assigns = append(assigns, fg.LeanStr(norm(p.Src(as))))
+		if err := o.pinShape(sp.pin, sp.what, f, "FloatingIPPool", sp.fn); err != nil {
+			return err
 		}
-		return true
-	})
-	o.def("`FloatingIPPool.MarshalJSON`: the assignments to the fields of the written `FloatingIPPoolConf`, in source order",
-		"marshalAssigns : List String", "[\n    "+strings.Join(assigns, ",\n    ")+"]")
+	}
 	return nil
 }
 
@@ -677,82 +731,94 @@ func genWalk(repo string, o *out) error {
 	if err != nil {
 		return err
 	}
-	fd, err := p.Fn("", "walkIPRanges")
+	f, err := load(p, "", "walkIPRanges")
 	if err != nil {
 		return err
 	}
-	e := &env{p: p, fn: "walkIPRanges", ips: map[string]string{"r.First": "x", "r.Last": "x"}, vars: map[string]val{}}
+	e := &env{p: p, fn: "walkIPRanges", ips: map[string]string{}, vars: map[string]val{}, calls: map[string]val{}}
 	bad := func(n ast.Node) error {
-		return e.errf(n, "expected `for _, r := range ranges { first := …; last := …; for ; <cond>; first++ { ip := nets.IntToIP(…); "+
-			"if f(ip) { return } } }`")
+		return e.errf(n, "expected (after normalisation) `for _, r := range ranges { first := <conv of IPToInt(r.First)>; "+
+			"for ; first <cmp> <conv of IPToInt(r.Last)>; first++ { if f(nets.IntToIP(<conv of first>)) { return } } }`")
 	}
-	if len(fd.Body.List) != 1 {
-		return bad(fd.Body)
+	ranges, cb := f.param(0), f.param(1)
+	if len(f.body()) != 1 {
+		return bad(f.fd.Body)
 	}
-	rs, ok := fd.Body.List[0].(*ast.RangeStmt)
-	if !ok || p.Src(rs.X) != "ranges" || rs.Value == nil || p.Src(rs.Value) != "r" || len(rs.Body.List) != 3 {
-		return bad(fd.Body.List[0])
+	rs, ok := f.body()[0].(*ast.RangeStmt)
+	rv := ""
+	if ok {
+		rv = identName(rs.Value)
 	}
-	var inits [2]val
-	for k, name := range []string{"first", "last"} {
-		as, ok := rs.Body.List[k].(*ast.AssignStmt)
-		if !ok || as.Tok != token.DEFINE || len(as.Lhs) != 1 || len(as.Rhs) != 1 || p.Src(as.Lhs[0]) != name {
-			return bad(rs.Body.List[k])
-		}
-		if !strings.Contains(p.Src(as.Rhs[0]), map[string]string{"first": "r.First", "last": "r.Last"}[name]) {
-			return bad(as)
-		}
-		v, err := e.expr(as.Rhs[0])
-		if err != nil {
-			return err
-		}
-		inits[k] = v
+	if !ok || p.Src(rs.X) != ranges || rv == "" || rv == "_" || len(rs.Body.List) != 2 {
+		return bad(f.body()[0])
 	}
-	if inits[0] != inits[1] || (inits[0].t != tU32 && inits[0].t != tU64) {
-		return e.errf(rs.Body, "`first` and `last` are not initialised by the same conversion of an unsigned integer")
+	e.ips[rv+".First"], e.ips[rv+".Last"] = "x", "x"
+	as, ok := rs.Body.List[0].(*ast.AssignStmt)
+	if !ok || as.Tok != token.DEFINE || len(as.Lhs) != 1 || len(as.Rhs) != 1 || !strings.Contains(p.Src(as.Rhs[0]), rv+".First") {
+		return bad(rs.Body.List[0])
 	}
-	ct := inits[0].t
-	fs, ok := rs.Body.List[2].(*ast.ForStmt)
-	if !ok || fs.Init != nil || fs.Cond == nil || fs.Post == nil || len(fs.Body.List) != 2 {
-		return bad(rs.Body.List[2])
+	ctr := identName(as.Lhs[0])
+	init, err := e.expr(as.Rhs[0])
+	if err != nil {
+		return err
 	}
-	e.vars["first"] = val{"first", ct}
-	e.vars["last"] = val{"last", ct}
+	if init.t != tU32 && init.t != tU64 {
+		return e.errf(as, "the loop counter is not an unsigned integer")
+	}
+	ct := init.t
+	fs, ok := rs.Body.List[1].(*ast.ForStmt)
+	if !ok || fs.Init != nil || fs.Cond == nil || fs.Post == nil || len(fs.Body.List) != 1 {
+		return bad(rs.Body.List[1])
+	}
+	// the bound: either a local initialised like the counter (when it could not be inlined) or that expression itself
+	cmp, ok := fs.Cond.(*ast.BinaryExpr)
+	if !ok || identName(cmp.X) != ctr || !strings.Contains(p.Src(cmp.Y), rv+".Last") {
+		return bad(fs.Cond)
+	}
+	bound, err := e.expr(cmp.Y)
+	if err != nil {
+		return err
+	}
+	if bound != init {
+		return e.errf(fs.Cond, "the counter and its bound are not initialised by the same conversion (%s vs %s)", init.lean, bound.lean)
+	}
+	e.vars[ctr] = val{"first", ct}
+	e.calls[norm(p.Src(cmp.Y))] = val{"last", ct}
 	cond, err := e.typed(fs.Cond, tBool)
 	if err != nil {
 		return err
 	}
 	inc, ok := fs.Post.(*ast.IncDecStmt)
-	if !ok || p.Src(inc.X) != "first" {
+	if !ok || identName(inc.X) != ctr {
 		return bad(fs.Post)
 	}
 	stepOp := "+"
 	if inc.Tok == token.DEC {
 		stepOp = "-"
 	}
-	as, ok := fs.Body.List[0].(*ast.AssignStmt)
-	if !ok || as.Tok != token.DEFINE || len(as.Lhs) != 1 || len(as.Rhs) != 1 || p.Src(as.Lhs[0]) != "ip" {
+	is, ok := fs.Body.List[0].(*ast.IfStmt)
+	if !ok || is.Else != nil || norm(p.Src(is.Body)) != "{ return }" {
 		return bad(fs.Body.List[0])
 	}
-	call, ok := as.Rhs[0].(*ast.CallExpr)
-	if !ok || !isIntToIP(p.Src(call.Fun)) {
-		return bad(as)
+	call, ok := is.Cond.(*ast.CallExpr)
+	if !ok || p.Src(call.Fun) != cb || len(call.Args) != 1 {
+		return bad(is.Cond)
 	}
-	ipx, err := e.typed(as.Rhs[0], tU32)
+	if c2, ok := call.Args[0].(*ast.CallExpr); !ok || !isIntToIP(p.Src(c2.Fun)) {
+		return bad(is.Cond)
+	}
+	ipx, err := e.typed(call.Args[0], tU32)
 	if err != nil {
 		return err
 	}
-	if norm(p.Src(fs.Body.List[1])) != "if f(ip) { return }" {
-		return bad(fs.Body.List[1])
-	}
-	fmt.Fprintf(&o.b, "/-- `walkIPRanges`: type of the loop counter `first` (`%s`) -/\nabbrev WalkCtr := %s\n\n", ct, ct.lean())
+	fmt.Fprintf(&o.b, "/-- `walkIPRanges`: type of the loop counter (`%s`) -/\nabbrev WalkCtr := %s\n\n", ct, ct.lean())
 	o.def("`walkIPRanges`: width of the loop counter", "walkCtrBits : Nat", strconv.Itoa(ct.bits()))
-	o.def("`walkIPRanges`: `first := "+norm(p.Src(rs.Body.List[0].(*ast.AssignStmt).Rhs[0]))+"` (and likewise `last`)",
-		"walkInit (x : BitVec 32) : WalkCtr", inits[0].lean)
+	o.def("`walkIPRanges`: the counter starts at `"+norm(p.Src(as.Rhs[0]))+"` (and is bounded by the same conversion of the last address)",
+		"walkInit (x : BitVec 32) : WalkCtr", init.lean)
 	o.def("`walkIPRanges`: loop condition `"+p.Src(fs.Cond)+"`", "walkCond (first last : WalkCtr) : Bool", cond)
 	o.def("`walkIPRanges`: loop post statement `"+p.Src(fs.Post)+"` (wraps at the counter's width)",
 		"walkStep (first : WalkCtr) : WalkCtr", fmt.Sprintf("(first %s 1#%d)", stepOp, ct.bits()))
-	o.def("`walkIPRanges`: the address handed to the callback, `"+p.Src(as.Rhs[0])+"`", "walkIP (first : WalkCtr) : BitVec 32", ipx)
+	o.def("`walkIPRanges`: the address handed to the callback, `"+p.Src(call.Args[0])+"`", "walkIP (first : WalkCtr) : BitVec 32", ipx)
 	return nil
 }
 
@@ -763,70 +829,13 @@ func genEnsure(repo string, o *out) error {
 	if err != nil {
 		return err
 	}
-	fd, err := p.Fn("FloatingIPPlugin", "ensureIPAMConf")
+	f, err := load(p, "FloatingIPPlugin", "ensureIPAMConf")
 	if err != nil {
 		return err
 	}
-	// skeleton: one entry per top-level statement; `if` = its init+condition and whether its body returns
-	var sk []string
-	for _, s := range fd.Body.List {
-		switch n := s.(type) {
-		case *ast.IfStmt:
-			c := norm(p.Src(n.Cond))
-			if n.Init != nil {
-				c = norm(p.Src(n.Init)) + "; " + c
-			}
-			ret := "no-return"
-			if len(n.Body.List) > 0 {
-				if r, ok := n.Body.List[len(n.Body.List)-1].(*ast.ReturnStmt); ok {
-					ret = "return " + resultsHead(p, r)
-				}
-			}
-			sk = append(sk, "if "+c+" -> "+ret)
-		case *ast.ForStmt, *ast.RangeStmt:
-			inner := ""
-			ast.Inspect(n, func(x ast.Node) bool {
-				if is, ok := x.(*ast.IfStmt); ok {
-					inner = norm(p.Src(is.Cond))
-					if len(is.Body.List) > 0 {
-						if r, ok := is.Body.List[len(is.Body.List)-1].(*ast.ReturnStmt); ok {
-							inner += " -> return " + resultsHead(p, r)
-						}
-					}
-				}
-				return true
-			})
-			sk = append(sk, "for: if "+inner)
-		case *ast.ReturnStmt:
-			sk = append(sk, "return "+resultsHead(p, n))
-		case *ast.ExprStmt:
-			if strings.HasPrefix(p.Src(n), "glog.") {
-				continue
-			}
-			sk = append(sk, norm(p.Src(n)))
-		default:
-			sk = append(sk, norm(p.Src(n)))
-		}
-	}
-	var q []string
-	for _, s := range sk {
-		q = append(q, fg.LeanStr(s))
-	}
-	o.def("`ensureIPAMConf`: top-level statements (logging dropped); an `if` is shown as `init; cond -> what its body returns`",
-		"ensureConfSkeleton : List String", "[\n    "+strings.Join(q, ",\n    ")+"]")
-	return nil
-}
-
-func resultsHead(p *fg.Parsed, r *ast.ReturnStmt) string {
-	var parts []string
-	for _, x := range r.Results {
-		s := norm(p.Src(x))
-		if strings.HasPrefix(s, "fmt.Errorf(") {
-			s = "error"
-		}
-		parts = append(parts, s)
-	}
-	return strings.Join(parts, ", ")
+	return o.pinShape("ensureIPAMConfShape", "`ensureIPAMConf`: unchanged text -> (false, nil); decode error -> error before ConfigurePool; "+
+		"null pool -> error before ConfigurePool; ConfigurePool error -> error; `*lastConf = newConf` only after all of that; (true, nil)",
+		f, "FloatingIPPlugin", "ensureIPAMConf")
 }
 
 func main() {
